@@ -1,7 +1,7 @@
 """C07 -- the server answers every request once, in order, under the request's own header."""
 from runner import Prop
 from vlib import Case
-import mb, cligen
+import mb, cligen, vlib
 
 
 def gen_pipeline(rng, proto, n):
@@ -54,7 +54,7 @@ class PROP(Prop):
     profiles = ["debug"]
     rule = ("pipelined request sequences (1..12 requests, every variant, random headers) with mixed answered / declined / failing service replies, "
             "delivered to the real TCP and RTU-over-TCP servers in one chunk, byte-wise, and under random chunkings; write scripts with small "
-            "accepts and pendings.  Oracle: the interleaved trace of service invocations and transport writes equals, per request in arrival "
+            "accepts and pendings; the same pipelines written to a pty served by the real serial RTU server (server::rtu, serve_until).  Oracle: the interleaved trace of service invocations and transport writes equals, per request in arrival "
             "order, one invocation followed by exactly one spec-encoded reply frame under the request's header (nothing when declined, "
             "fc|0x80 + code when the service failed).  non-trivial = pipeline with >= 2 requests or a split frame")
 
@@ -78,9 +78,21 @@ class PROP(Prop):
                 W = rng.choice(["-", "-", "a1,a2,p,a3", "p,a5,p,a1000"])
                 line = "SRV %s %s %s - %s" % (proto, mb.rscript(parts), W, ",".join(svc_tok(e) for e in svc))
                 cs.append(Case(line, {"proto": proto, "exp": expected_trace(proto, hdrs, reqs, svc), "k": k, "nparts": len(parts)}))
+                # the serial RTU server (its own copy of the loop) over a pty
+                if proto == "rtu" and rng.random() < (0.35 if tier == "quick" else 0.2):
+                    exp = expected_trace(proto, hdrs, reqs, svc)
+                    cs.append(cligen.ser_case(parts, ",".join(svc_tok(e) for e in svc), exp, "w", abort=rng.random() < 0.2,
+                                              meta={"proto": "serial", "exp": exp, "k": k, "nparts": len(parts)}))
         return cs
 
+    def project(self, c, s):
+        return vlib.ser_norm(s, c.meta.get("abort")) if c.meta.get("ser") else s
+
     def oracle(self, c):
+        if c.meta.get("ser"):
+            want = vlib.ser_norm(",".join(c.meta["exp"] + ["WAIT"]), c.meta.get("abort"))
+            got = vlib.ser_norm(c.impl or "", c.meta.get("abort"))
+            return None if got == want else "serial RTU server: got %s, want %s" % (got[:150], want[:150])
         tr = (c.impl or "").split(",")
         if "PANIC" in tr:
             return "panic"
